@@ -347,7 +347,7 @@ def _build():
     _REG["C04"] = seq_spec(
         "C04",
         "exploration",
-        "seeded SEQ-SIM runs with 'restart' faults at seeded instants: the live sequence is persisted (abstract repr / legacy JSON), dropped, restored and the run CONTINUES on the restored object under RefSched and RefPhase, so hidden state the JSON failed to carry shows up later; restored object compared field-wise with the original; abstract repr validated against the published schema; non-trivial = a restart of a program with >=5 operations and >=1 non-default optional argument; distinct = distinct concrete op traces. (Parametrized templates: see the TMPL-SIM part of this check.)",
+        "seeded SEQ-SIM runs with 'restart' faults at seeded instants: the live sequence is persisted (abstract repr / legacy JSON), dropped, restored and the run CONTINUES on the restored object under RefSched and RefPhase, so hidden state the JSON failed to carry shows up later; restored object compared field-wise with the original; 15% of the worlds use integer qubit ids (there the abstract round trip, which stringifies ids, is compared as a separate object and the run goes on with the original); abstract repr validated against the published schema; non-trivial = a restart of a program with >=5 operations and >=1 non-default optional argument; distinct = distinct concrete op traces. (Parametrized templates: see the TMPL-SIM part of this check.)",
         A.make_profile(
             w_fault=1.0,
             fault_kinds={"bad": 1, "restart": 6, "cache": 0.3},
@@ -359,10 +359,10 @@ def _build():
         ),
         lambda: [c04.C04(), c09.Relabel(c03.C03(), "C04/continued-sched-", only=("C03/not-minimal", "C03/conflict", "C03/barrier")), c09.Relabel(c07.C07(), "C04/continued-phase-", only=("C07/reference", "C07/pulse-phase", "C07/shift-time", "C07/barrier"))],
         nontrivial_fn=c04.nontrivial,
-        world_kw={"xy_p": 0.25},
+        world_kw={"xy_p": 0.25, "int_ids_p": 0.15},
         runs={"quick": 3000, "thorough": 60000},
         assumptions=["legacy JSON is only claimed for built-in and virtual devices (custom physical Device classes are documented as unsupported)", "set-valued targets are compared as sets (hash order)"],
-        expected_probes=["restart_abstract", "restart_legacy", "schema_validated"],
+        expected_probes=["restart_abstract", "restart_legacy", "schema_validated", "roundtrip_integer_ids"],
     )
 
     _REG["C08"] = tmpl_spec(
